@@ -100,3 +100,17 @@ Proof.
 Qed.
 
 End Gen2.
+
+(* the strict bound is only needed when the continuation draws something, and then it follows *)
+Lemma exec_gen_never_again' mf sched sched2 c :
+  let r1 := exec mf sched c in
+  let olds1 := gen_olds (snd r1) in
+  let olds2 := gen_olds (snd (exec mf sched2 (fst r1))) in
+  sh_gen (cf_sh c) + N.of_nat (length olds1) + N.of_nat (length olds2) <= W ->
+  forall x, In x olds1 -> In x olds2 -> False.
+Proof.
+  intros r1 olds1 olds2 Hb x H1 H2.
+  refine (exec_gen_never_again mf sched sched2 c Hb _ x H1 H2).
+  fold r1 olds1. fold r1 olds1 olds2 in Hb.
+  destruct olds2 as [|y l]; [destruct H2|]. cbn [length] in Hb. lia.
+Qed.
